@@ -120,9 +120,6 @@ func RunDaemon() {
 			g.Add(func() error {
 				err := mon.Run(ctx)
 				ui.Info("Sensor Monitor for sensor %s stopped.", s.GetId())
-				if err != nil {
-					panic(err)
-				}
 				return err
 			}, func(err error) {
 				if err != nil {
@@ -141,8 +138,9 @@ func RunDaemon() {
 				ui.Info("Fan controller for fan %s stopped.", fan.GetId())
 				if err != nil {
 					ui.NotifyError(fmt.Sprintf("Fan Controller: %s", fan.GetId()), err.Error())
-					panic(err)
 				}
+				// returning the error makes the run group interrupt all other actors,
+				// which restores the remaining fans before the process exits
 				return err
 			}, func(err error) {
 				if err != nil {
